@@ -337,20 +337,32 @@ def _r10f(cx, repo):
     guard_txt = "self._ch_text is None"
     compute = "self._ch_text = self.ppobj.make_ch_text(self.cp)"
     n = 0
-    for f in [s for s in cls.body if isinstance(s, FUNC)]:
+    methods = [s for s in cls.body if isinstance(s, FUNC)]
+
+    def guards_of(f):
+        return [s for s in f.body if isinstance(s, ast.If) and norm(s.test) == guard_txt and [norm(b) for b in s.body] == [compute] and not s.orelse]
+    # methods that leave the text computed on every path: the guard is a top-level statement of their body
+    ensurers = {f.name for f in methods if f.name != "__init__" and guards_of(f)}
+
+    def top_of(node, f):
+        top = enclosing_stmt(node)
+        while parent(top) is not f:
+            top = parent(top)
+        return top
+
+    for f in methods:
         if f.name == "__init__":
             continue
         loads = [x for x in walk_local(f) if is_self_attr(x, "_ch_text") and isinstance(x.ctx, ast.Load)]
-        guards = [s for s in f.body if isinstance(s, ast.If) and norm(s.test) == guard_txt and [norm(b) for b in s.body] == [compute] and not s.orelse]
+        guards = guards_of(f)
+        ens_calls = [c for c in walk_local(f) if isinstance(c, ast.Call) and isinstance(c.func, ast.Attribute) and is_name(c.func.value, "self") and c.func.attr in ensurers and c.func.attr != f.name]
+        n += len(ens_calls)
         for ld in loads:
             if any(ld in list(ast.walk(g.test)) for g in guards):
                 continue
             n += 1
-            st = enclosing_stmt(ld)
-            top = st
-            while parent(top) is not f:
-                top = parent(top)
-            ok = any(f.body.index(g) < f.body.index(top) for g in guards)
+            top = top_of(ld, f)
+            ok = any(f.body.index(g) < f.body.index(top) for g in guards) or any(f.body.index(top_of(c, f)) < f.body.index(top) for c in ens_calls)
             cx.ob("R10f", ld, ok, f"{f.name}: use of the text is dominated by the lazy computation" if ok else f"{f.name}: the text is used without the `_ch_text is None` guard (None / stale)")
         for x in walk_local(f):
             if is_self_attr(x, ("_ch_text", "cp", "ppobj")) and isinstance(x.ctx, ast.Store):
